@@ -616,7 +616,15 @@ fn spell_term(rng: &mut Rng, t: &T, out: &mut String, expect: &mut Vec<T>) -> bo
             out.push_str(&ws(rng, false));
             out.push_str(op_text(op));
             out.push_str(&ws(rng, false));
-            let lit = spell_literal(v);
+            // text literals: every second time in one of the reference writer's spellings (short escapes, `\uXXXX` in
+            // either case, raw characters) instead of the library's own
+            let lit = match v {
+                Value::Str(_) | Value::Uri(_) | Value::Ref(_) if rng.chance(1, 2) => {
+                    let mut sp = crate::spell::Speller::new(rng);
+                    sp.scalar(v).unwrap_or_else(|| spell_literal(v))
+                }
+                _ => spell_literal(v),
+            };
             out.push_str(&lit);
             expect.push(t.clone());
             matches!(v, Value::Str(_) | Value::Uri(_)) || matches!(v, Value::Ref(r) if r.dis.is_some())
